@@ -56,6 +56,7 @@ def main(prop, partname, n, sd=1):
         t()
     except Violation as v:
         print("VIOLATION", v)
+        json.dump(cur["scn"], open("/tmp/dev_violation.json", "w"))
     for k, (scn, tb) in buckets.items():
         print("=" * 30, k)
         print(tb)
